@@ -6,13 +6,24 @@ import (
 
 type tagIfchangedNode struct {
 	watchedExpr []IEvaluator
-	lastValues  []*Value
-	lastContent []byte
 	thenWrapper *NodeWrapper
 	elseWrapper *NodeWrapper
 }
 
+// tagIfchangedState is what an ifchanged node remembers from its previous execution
+// within one rendering; it lives in the execution context.
+type tagIfchangedState struct {
+	lastValues  []*Value
+	lastContent []byte
+}
+
 func (node *tagIfchangedNode) Execute(ctx *ExecutionContext, writer TemplateWriter) *Error {
+	state, _ := ctx.getNodeState(node).(*tagIfchangedState)
+	if state == nil {
+		state = &tagIfchangedState{}
+		ctx.setNodeState(node, state)
+	}
+
 	if len(node.watchedExpr) == 0 {
 		// Check against own rendered body
 
@@ -23,10 +34,10 @@ func (node *tagIfchangedNode) Execute(ctx *ExecutionContext, writer TemplateWrit
 		}
 
 		bufBytes := buf.Bytes()
-		if !bytes.Equal(node.lastContent, bufBytes) {
+		if !bytes.Equal(state.lastContent, bufBytes) {
 			// Rendered content changed, output it
 			writer.Write(bufBytes)
-			node.lastContent = bufBytes
+			state.lastContent = bufBytes
 		}
 	} else {
 		nowValues := make([]*Value, 0, len(node.watchedExpr))
@@ -39,16 +50,16 @@ func (node *tagIfchangedNode) Execute(ctx *ExecutionContext, writer TemplateWrit
 		}
 
 		// Compare old to new values now
-		changed := len(node.lastValues) == 0
+		changed := len(state.lastValues) == 0
 
-		for idx, oldVal := range node.lastValues {
+		for idx, oldVal := range state.lastValues {
 			if !oldVal.EqualValueTo(nowValues[idx]) {
 				changed = true
 				break // we can stop here because ONE value changed
 			}
 		}
 
-		node.lastValues = nowValues
+		state.lastValues = nowValues
 
 		if changed {
 			// Render thenWrapper
